@@ -437,7 +437,9 @@ class MailboxData(MailboxDataInterface[Message]):
 
     async def claim_recent(self, selected: SelectedMailbox) -> None:
         async with self.messages_lock.write_lock():
-            keys = self._maildir.claim_new()
+            # claim_new() is a generator: it must be run to the end here,
+            # under the lock, and its keys looked up in any order below
+            keys = frozenset(self._maildir.claim_new())
         async with UidList.with_read(self._path) as uidl:
             for rec in uidl.records:
                 if rec.key in keys:
